@@ -455,7 +455,7 @@ int main(int argc, char **argv) {
         if (pid == 0) {
             close(pfd[0]); out_fd = pfd[1];
             for (size_t i = k; i < n; i++) {
-                alarm(10);
+                hc_alarm(10);
                 do_case(cases[i]);
                 emit("\n"); flush_out();
             }
